@@ -16,7 +16,8 @@ type Verdict struct {
 	// Admit: "exact" (a parameter-free entry of the declared list), "default" (only the API default media type),
 	// "type/*", "*/*", "param-entry" (only an entry that itself carries parameters matches, up to parameters:
 	// tolerated either way), "empty-list" (no entry at all: see the note in Check), "no".
-	Admit string
+	Admit     string
+	ViaParams bool // some entry carrying parameters covers the media type
 }
 
 // effectiveList is the operation's consumes list with the API default media type added.
@@ -96,9 +97,10 @@ func Judge(consumes []string, def string, hasBody bool, header string) Verdict {
 		if how == "" {
 			continue
 		}
+		// an entry that itself carries parameters admits its media type like a parameter-free one ("compared
+		// case-insensitively, ignoring parameters"); ViaParams only feeds the labels
 		if params {
-			better("param-entry")
-			continue
+			v.ViaParams = true
 		}
 		if how == "exact" && i >= len(consumes) {
 			how = "default"
